@@ -75,9 +75,17 @@ def gen_l2t(rng):
                 via = "format_trace"
             recs.append({"level": rng.randint(1, 5), "target": rng.choice(RTARGETS), "msg": hx(rng.choice(MSGS)),
                          "file": some(rng, ["src/lib.rs", "a b/c.rs", ""]), "module": some(rng, ["m", "a::b::c", ""]),
-                         "line": rng.choice([-1, 0, 1, 4242, 2 ** 31 - 1]), "via_macro": via == "logger" and rng.random() < 0.2, "via": via})
+                         "line": rng.choice([-1, 0, 1, 4242, 2 ** 31 - 1]), "via_macro": via == "logger" and rng.random() < 0.35, "via": via})
         rounds.append({"collector": col, "records": recs})
-    return {"mode": "l2t", "ignore": rng.choice(IGNORES), "rounds": rounds}
+    ignore = rng.choice(IGNORES)
+    b = {"mode": "l2t", "ignore": ignore, "rounds": rounds}
+    if rng.random() < 0.4:
+        b["max_level"] = rng.randint(1, 5)
+    if not ignore:
+        b["ctor"] = rng.choice(["builder", "init_with_filter"]) if "max_level" in b else rng.choice(["builder", "init", "new"])
+    else:
+        b["ctor"] = rng.choice(["builder", "ignore_all"])
+    return b
 
 
 def project(lines):
